@@ -10,6 +10,9 @@
 (*   t_missing t_flat t_ragged t_mis_io t_mis_vi t_nonmono t_repeat          *)
 (*                                malformed / mismatched / non-monotonic    *)
 (*   t_negentry t_zeroentry t_gt1entry       table with such an entry       *)
+(*   t1_negentry                  1-D table with one negative entry         *)
+(*   t1_neg t2_neg t2_negaxis     table written with a minus sign on every  *)
+(*                                entry / on the vi axis                    *)
 (*   list list_neg list_str str   resistance list / with a string / a string *)
 (*   true false                   loss flag                                  *)
 (*   limits: absent ok notlist len3 nonnum                                  *)
@@ -23,7 +26,10 @@ TableBad == {"t_missing", "t_flat", "t_ragged", "t_mis_io", "t_mis_vi", "t_nonmo
 TableOK  == {"t1", "t2"}
 LimForms == {"absent", "ok", "notlist", "len3", "nonnum"}
 Flag     == {"absent", "true", "false"}
-IgForms  == Scalar \cup TableOK \cup TableBad \cup {"t_negentry"}
+\* tables carrying a minus sign: one entry of a 2-D / 1-D table, every entry of a 1-D / 2-D table, the vi axis
+NegEntry == {"t_negentry", "t1_negentry"}
+NegTable == {"t1_neg", "t2_neg", "t2_negaxis"}
+IgForms  == Scalar \cup TableOK \cup TableBad \cup NegEntry \cup {"t2_negaxis"}
 
 Kinds == {"Source", "PLoad", "ILoad", "RLoad", "RLoss", "VLoss", "Converter", "LinReg", "PSwitch", "PMux", "Rectifier"}
 
@@ -34,10 +40,10 @@ Space(kind) ==
     [] kind = "ILoad"     -> [ii |-> Mand, iis |-> Scalar, rt |-> Opt3, loss |-> Flag, limits |-> LimForms]
     [] kind = "RLoad"     -> [rs |-> Mand, rt |-> Scalar, loss |-> Flag, limits |-> LimForms]
     [] kind = "RLoss"     -> [rs |-> Mand, rt |-> Scalar, limits |-> LimForms]
-    [] kind = "VLoss"     -> [vdrop |-> Mand \cup TableOK \cup TableBad \cup {"t_negentry"}, rt |-> Scalar, limits |-> LimForms]
+    [] kind = "VLoss"     -> [vdrop |-> Mand \cup TableOK \cup TableBad \cup NegEntry \cup NegTable, rt |-> Scalar, limits |-> LimForms]
     [] kind = "Converter" -> [vo |-> {"pos", "neg", "int"},
                               eff |-> {"pos", "one", "neg", "zero", "gt1", "int"} \cup TableOK \cup TableBad
-                                      \cup {"t_negentry", "t_zeroentry", "t_gt1entry"},
+                                      \cup NegEntry \cup {"t_zeroentry", "t_gt1entry", "t2_negaxis"},
                               iq |-> Opt3, iis |-> Opt3, rt |-> Opt3, limits |-> LimForms]
     [] kind = "LinReg"    -> [vo |-> {"pos", "neg", "zero"},
                               vdrop |-> {"absent", "small", "negsmall", "equal", "larger", "neglarger"},
@@ -45,8 +51,8 @@ Space(kind) ==
     [] kind = "PSwitch"   -> [rs |-> Scalar, ig |-> IgForms, iis |-> Opt3, rt |-> Opt3, limits |-> LimForms]
     [] kind = "PMux"      -> [rs |-> Scalar \cup {"list", "list_neg", "list_str"}, ig |-> IgForms, iis |-> Opt3, rt |-> Opt3,
                               limits |-> {"absent", "ok", "len3"}]
-    [] kind = "Rectifier" -> [vdrop |-> {"absent", "zero", "pos", "neg", "t1", "t2", "t_missing", "t_nonmono", "t_mis_io"},
-                              rs |-> Scalar \cup {"list_str", "str"}, ig |-> {"absent", "pos", "neg", "t1", "t_negentry", "t_mis_vi"},
+    [] kind = "Rectifier" -> [vdrop |-> {"absent", "zero", "pos", "neg", "t1", "t2", "t_missing", "t_nonmono", "t_mis_io", "t1_negentry", "t1_neg", "t2_negaxis"},
+                              rs |-> Scalar \cup {"list_str", "str"}, ig |-> {"absent", "pos", "neg", "t1", "t_negentry", "t1_negentry", "t_mis_vi"},
                               iq |-> Opt3, rt |-> Opt3, limits |-> {"absent", "ok", "notlist"}]
 
 Has(a, k)     == k \in DOMAIN a
@@ -57,15 +63,15 @@ DiodeMode(a)  == F(a, "vdrop") \notin {"absent", "zero"}
 \* the constructor must reject exactly these (with ValueError)
 Rejects(kind, a) ==
   \/ BadLimits(a)
-  \/ kind = "Converter" /\ F(a, "eff") \in {"neg", "zero", "gt1", "t_negentry", "t_zeroentry", "t_gt1entry"} \cup TableBad
+  \/ kind = "Converter" /\ F(a, "eff") \in {"neg", "zero", "gt1", "t_zeroentry", "t_gt1entry"} \cup NegEntry \cup TableBad
   \/ kind = "LinReg" /\ ( F(a, "vo") = "zero" \/ F(a, "vdrop") \in {"equal", "larger", "neglarger"}
-                          \/ F(a, "ig") \in TableBad \cup {"t_negentry"} )
+                          \/ F(a, "ig") \in TableBad \cup NegEntry )
   \/ kind = "RLoad" /\ F(a, "rs") = "zero"
   \/ kind = "VLoss" /\ F(a, "vdrop") \in TableBad
-  \/ kind \in {"PSwitch", "PMux"} /\ F(a, "ig") \in TableBad \cup {"t_negentry"}
+  \/ kind \in {"PSwitch", "PMux"} /\ F(a, "ig") \in TableBad \cup NegEntry
   \/ kind = "PMux" /\ F(a, "rs") = "list_str"
   \/ kind = "Rectifier" /\ DiodeMode(a) /\ F(a, "vdrop") \in TableBad
-  \/ kind = "Rectifier" /\ ~DiodeMode(a) /\ ( F(a, "rs") \in {"list_str", "str"} \/ F(a, "ig") \in TableBad \cup {"t_negentry"} )
+  \/ kind = "Rectifier" /\ ~DiodeMode(a) /\ ( F(a, "rs") \in {"list_str", "str"} \/ F(a, "ig") \in TableBad \cup NegEntry )
 
 \* scalar parameters that are magnitudes: given with a negative sign they are stored as |value|
 MagKeys(kind) ==
@@ -81,8 +87,8 @@ SignKept(kind) == IF kind \in {"Source", "Converter", "LinReg"} THEN {"vo"} ELSE
 \* tabulated ground current - hence (row theorems of Elec) no negative loss / gain
 AcceptedIsPhysical(kind, a) ==
   ~Rejects(kind, a) =>
-     /\ kind = "Converter" => F(a, "eff") \in {"pos", "one", "int", "t1", "t2"}
+     /\ kind = "Converter" => F(a, "eff") \in {"pos", "one", "int", "t1", "t2", "t2_negaxis"}
      /\ kind = "RLoad" => F(a, "rs") # "zero"
      /\ kind = "LinReg" => F(a, "vdrop") \in {"absent", "small", "negsmall"} /\ F(a, "vo") # "zero"
-     /\ F(a, "ig") # "t_negentry" \/ (kind = "Rectifier" /\ DiodeMode(a))
+     /\ F(a, "ig") \notin NegEntry \/ (kind = "Rectifier" /\ DiodeMode(a))
 =============================================================================
